@@ -23,8 +23,16 @@ ENTRIES = {
         "design_ref": "DESIGN.md §5 C09",
     },
     "C02": {
-        "text": 'Step-level theorems for every pool state: a non-shareable connection is delivered to at most one waiter and never both delivered and kept idle; the hand-back task returns it only when open and not busy; pop never returns a busy/closed connection; use marks it busy. Monitors (double-use, busy-handout) run on every implementation trace; model and implementation are compared after every op.',
-        "note": 'Trusted: Lean kernel; hand-written pool model tied to the real ConnectionPoolService by per-op differential runs (result, marker set, waiter queues, idle lists, dial and drop counters); tokio oneshot/scheduler semantics assumed; step-level theorems hold for every state, the global ownership invariant is stated in DESIGN.md as future work where not yet proved.',
+        "text": "Invariant theorems over all reachable states of the pool model (every configuration, every operation sequence): "
+                "(1) linear ownership - a connection that cannot be multiplexed is in at most one place: one idle list (once), one "
+                "waiter's channel, one checkout, one request's hands, or one hand-back task; hence it is held by at most one request and "
+                "while held it is nowhere the pool hands out from (C02_one_holder, C02_held_out_of_pool, C02_pooled_once); (2) readiness "
+                "- a non-multiplexed connection that is available for hand-out (idle, in a channel, popped into a checkout) is not busy, "
+                "so a connection that is still busy - response not consumed, or taken over by an upgrade and never ready again - is not "
+                "available, and whatever a poll hands out is not busy at that moment (C02_available_means_ready, C02_busy_not_available, "
+                "C02_handout_ready). Plus step-level lemmas. The trace monitor checks double use and busy hand-out on every delivery by "
+                "the real pool.",
+        "note": 'Trusted: Lean kernel; hand-written pool model tied to the real ConnectionPoolService by per-op differential runs (result, marker set, waiter queues, idle lists, dial and drop counters); tokio oneshot/scheduler semantics assumed; busy/ready is the model\'s abstraction of hyper\'s poll_ready.',
         "design_ref": "DESIGN.md §4",
     },
     "C03": {
